@@ -12,7 +12,7 @@ therefore a parameter.  Numbers are `Num` (= `*big.Float`); `normalNum` is the
 representation invariant of the model's numbers (odd mantissa), which every
 number has (`normal_mk`) — it restricts representations, not numbers.
 -/
-import CtyModel.Lemmas.GoctyRT
+import CtyModel.Lemmas.GoctyRoundtrip
 namespace CtyModel
 namespace C18
 open Gocty
@@ -146,8 +146,10 @@ big numbers (numbers).  `rtSide norm g T` (decidable) says:
 * every string and map key in `g` is NFC (`norm s = s`);
 * a nil pointer occurs only where its pointee type is not itself a pointer, slice,
   map, array or `cty.Value` (null cannot say at which level the nil was);
-* every struct field carries a distinct NFC `cty` tag;
-* no `cty.Value` below a slice, array or map (a cty list/map has one element type).
+* the `cty` tags of a struct are distinct and NFC, at least one field has one, and a
+  field without a tag — which the bridge does not carry — holds its zero value;
+* no `cty.Value` below a slice, array or map (a cty list/map has one element type),
+  and no `cty.NilVal` (the invalid zero `cty.Value`) in a bridged position.
 The first two are exactly the two recorded known findings; see the counterexamples. -/
 
 /-- The unconditional round-trip statement (false of the code, see below). -/
@@ -181,11 +183,54 @@ type of the embedded value) -/
 theorem toCty_has_implied_type (norm : String → String) (g : GoVal) (T : GoTy) (ty : Ty) (v : Value)
     (hT : hasTy g T = true) (hs : rtSide norm g T = true) (hb : bridgeType norm T = .ok ty)
     (hc : hasCval T = false) (hv : toCty norm g ty = .ok v) : v.ty = ty := by
-  obtain ⟨v', h1, _, h3⟩ := rt norm g T ty hT hs hb
+  obtain ⟨v', h1, _, h3, _⟩ := rt norm g T ty hT hs hb
   have : v = v' := by
     have := hv.symm.trans h1
     cases this; rfl
   rw [this]; exact h3 hc
+
+/-- In general the value produced conforms to the implied type: it has the same
+shape wherever the implied type is not the placeholder `cty.DynamicPseudoType`
+(`Ty.matches`), and — its own type being a well-formed cty type — the real
+`TestConformance` reports no error (`C07.conform_iff`). -/
+theorem toCty_conforms (norm : String → String) (g : GoVal) (T : GoTy) (ty : Ty) (v : Value)
+    (hT : hasTy g T = true) (hs : rtSide norm g T = true) (hb : bridgeType norm T = .ok ty)
+    (hv : toCty norm g ty = .ok v) :
+    Ty.«matches» ty v.ty = true ∧ (Ty.wf v.ty = true → Ty.conformErrs ty v.ty = 0) := by
+  obtain ⟨v', h1, _, _, h4⟩ := rt norm g T ty hT hs hb
+  have : v = v' := by
+    have := hv.symm.trans h1
+    cases this; rfl
+  subst this
+  exact ⟨h4, fun hw => (Ty.conform_iff ty v.ty (impliedG_wf norm true T ty hb) hw).mpr h4⟩
+
+/-! ### `ImpliedType` -/
+
+/-- `ImpliedType` returns a type or an error for every Go type, never panics; what it
+returns is a well-formed cty type (attribute names strictly ascending, i.e. a map
+with distinct keys) without optional-attribute annotations … -/
+theorem impliedType_total (norm : String → String) (T : GoTy) :
+    (∀ w, impliedType norm T ≠ .panic w) ∧
+    (∀ ty, impliedType norm T = .ok ty → Ty.wf ty = true) := by
+  refine ⟨fun w h => ?_, fun ty h => impliedG_wf norm false T ty h⟩
+  have := impliedG_noPanic norm false T
+  unfold impliedType at h
+  rw [h] at this
+  cases this
+
+/-- … it has no cty type for arrays, big numbers and structs without tagged fields
+(an error, at any pointer depth; errors of element types propagate) … -/
+theorem impliedType_refuses (norm : String → String) (n : Nat) (e : GoTy) (tags : List String) (tys : List GoTy)
+    (h : taggedNames tags = []) :
+    (∃ c, impliedType norm (.array n e) = .err c) ∧ (∃ c, impliedType norm .bigInt = .err c) ∧
+    (∃ c, impliedType norm .bigFloat = .err c) ∧ (∃ c, impliedType norm (.struct tags tys) = .err c) ∧
+    (∃ c, impliedType norm (.ptr (.ptr (.array n e))) = .err c) :=
+  ⟨⟨_, rfl⟩, ⟨_, rfl⟩, ⟨_, rfl⟩, ⟨"no cty field tags", by simp [impliedType, impliedG, h]⟩, ⟨_, rfl⟩⟩
+
+/-- … and where it succeeds the bridge type is the same type: the round trip above
+is, for those Go types, the round trip through `ImpliedType` itself. -/
+theorem impliedType_is_bridgeType (norm : String → String) (T : GoTy) (ty : Ty)
+    (h : impliedType norm T = .ok ty) : bridgeType norm T = .ok ty := implied_bridge norm T ty h
 
 /-- known finding 1: a nil `*[]string` becomes null, and null decodes to a non-nil
 pointer to a nil slice — the nil comes back one level further in -/
@@ -228,11 +273,13 @@ example : Value.containsMarked ⟨.list .string, .seq [.s "a", .null]⟩ = false
 
 /-- a nested Go type and a value of it that meet every hypothesis of the round trip -/
 def sampleT : GoTy :=
-  .struct ["name", "l", "m", "p", "bi", "v"]
-    [.str, .slice (.int .w16 true), .map (.array 2 (.int .w8 false)), .ptr (.ptr (.struct ["a"] [.bool])), .bigInt, .cval]
+  .struct ["name", "l", "", "m", "p", "bi", "v"]
+    [.str, .slice (.int .w16 true), .int .w16 true, .map (.array 2 (.int .w8 false)),
+     .ptr (.ptr (.struct ["a"] [.bool])), .bigInt, .cval]
 def sampleG : GoVal :=
-  .struct ["name", "l", "m", "p", "bi", "v"]
-    [.str "x", .slice [.int 1, .int (-32768)], .map ["k", "z"] [.arr [.int 0, .int 255], .arr [.int 1, .int 2]],
+  .struct ["name", "l", "", "m", "p", "bi", "v"]
+    [.str "x", .slice [.int 1, .int (-32768)], .int 0,
+     .map ["k", "z"] [.arr [.int 0, .int 255], .arr [.int 1, .int 2]],
      .ptr (.ptr (.struct ["a"] [.bool true])), .bigInt 18446744073709551616, .cval ⟨.string, .unk .unref⟩]
 example : hasTy sampleG sampleT = true ∧ rtSide id sampleG sampleT = true := by decide
 example : ∃ ty, bridgeType id sampleT = .ok ty := ⟨_, rfl⟩
